@@ -167,6 +167,13 @@ def Valid (s : ColorSpec) (c : Nat) : Prop :=
 instance (s : ColorSpec) (c : Nat) : Decidable (s.Valid c) := by
   unfold Valid; cases s.kind <;> exact inferInstance
 
+/-- number of low bits of the raw value that carry information: all channel fields of an RGB type
+(they are adjacent from bit 0, see `WellFormed`), `BITS_PER_PIXEL` otherwise -/
+def usedBits (s : ColorSpec) : Nat :=
+  match s.kind with
+  | .rgb | .bgr => s.rbits + s.gbits + s.bbits
+  | _ => s.rawBpp
+
 /-! ### layout conditions (decided per generated record) -/
 
 /-- three bit fields `(pos, bits)` in ascending order, adjacent, starting at bit 0 -/
